@@ -182,7 +182,7 @@ enum G {
     /// of the write and HTTP tasks, time up to 300 ms + d (write and HTTP task vote), then a set on the
     /// lane and a command that makes the agent stop itself, delivered together: the lane event reaches
     /// the write task while its vote is outstanding and the read task's voter goes away with the agent.
-    Window { r: u16, lane: u8, k: i32, a: u64, d: u64, split: bool, sets: u8, steps: Vec<(usize, usize)> },
+    Window { r: u16, lane: u8, k: i32, a: u64, d: u64, split: bool, sets: u8, http_last: Option<(u64, i64)>, steps: Vec<(usize, usize)> },
     /// One handler sets the persistent value store and a persistent value lane (0 = v0, 1 = v1) to the
     /// SAME value while a remote is linked to the lane: byte-identical states of two different items.
     Twin { r: u16, lane: u8 },
@@ -272,9 +272,12 @@ fn arb_window() -> impl Strategy<Value = G> {
         prop_oneof![Just(1u64), Just(50), Just(150)],
         any::<bool>(),
         1u8..3,
+        // variant C (half of the windows): the HTTP task votes last, `dh` ms after the other two; the
+        // agent's own change is due `e` ms before/after that vote
+        prop_oneof![1 => Just(None), 1 => (2u64..299, prop_oneof![4 => Just(-1i64), 1 => Just(0), 1 => Just(1), 1 => Just(-2)]).prop_map(Some)],
         proptest::collection::vec((1usize..3, prop_oneof![2 => Just(usize::MAX), 1 => 1usize..40]), 2..8),
     )
-        .prop_map(|(r, lane, k, a, d, split, sets, steps)| G::Window { r, lane, k, a, d, split, sets, steps })
+        .prop_map(|(r, lane, k, a, d, split, sets, http_last, steps)| G::Window { r, lane, k, a, d, split, sets, http_last, steps })
 }
 
 fn arb_cutsel() -> impl Strategy<Value = CutSel> {
@@ -336,7 +339,7 @@ fn build_case(mut params: SimParams, cascade: bool, gs: Vec<G>, gs2: Vec<G>, pla
                     ops.push(Op::Settle);
                     continue;
                 }
-                G::Window { r, lane, k, a, d, split, sets, steps } => {
+                G::Window { r, lane, k, a, d, split, sets, http_last, steps } => {
                     let mut set_body = |fresh: &mut dyn FnMut() -> i64| {
                         if lane < 3 {
                             fresh().to_string()
@@ -348,7 +351,41 @@ fn build_case(mut params: SimParams, cascade: bool, gs: Vec<G>, gs2: Vec<G>, pla
                     ops.push(Op::Cmd { r, lane, body: set_body(&mut fresh) });
                     ops.push(Op::Settle);
                     ops.push(Op::Advance { ms: a });
-                    if split {
+                    if let Some((dh, e)) = http_last {
+                        // variant C: the HTTP task casts the completing vote. `join4(att, ext_links, http, io)`
+                        // polls the HTTP task before the read/write tasks and the attachment task first, so
+                        // when the HTTP vote makes the stop unanimous the write task is polled in the same
+                        // poll, before the attachment task can react: a lane event that is already in its
+                        // channel is handled with an outstanding vote and a unanimous rescind.
+                        let act = if lane < 3 {
+                            Act::SetV { lane, v: fresh() }
+                        } else {
+                            Act::Upd { map: lane - 3, k, v: fresh() }
+                        };
+                        // t_c: control command (read activity) + its echo event (write activity)
+                        let due = (300 + dh as i64 + e).max(1) as u64;
+                        programs.push(vec![Act::Later { ms: due, act: Box::new(act) }]);
+                        ops.push(Op::Cmd { r, lane: CTL, body: (programs.len() - 1).to_string() });
+                        ops.push(Op::Pump { r, n: usize::MAX });
+                        ops.push(Op::Settle);
+                        // t_c + dh: an HTTP request (lane 8 = request for an unknown HTTP lane) re-arms the HTTP
+                        // task's timeout only
+                        ops.push(Op::Advance { ms: dh });
+                        ops.push(Op::Cmd { r, lane: 8, body: String::new() });
+                        ops.push(Op::Poll { k: 3 });
+                        // t_c + 300: the read and write tasks vote
+                        ops.push(Op::Advance { ms: 300 - dh });
+                        ops.push(Op::Poll { k: 4 });
+                        if e < 0 {
+                            // the agent's change first (one poll: the event is now in the lane's channel) ...
+                            ops.push(Op::Advance { ms: (dh as i64 + e).max(0) as u64 });
+                            ops.push(Op::Poll { k: 1 });
+                            // ... then the HTTP task's vote
+                            ops.push(Op::Advance { ms: (-e) as u64 });
+                        } else {
+                            ops.push(Op::Advance { ms: dh + e as u64 });
+                        }
+                    } else if split {
                         // variant A: the agent changes the lane by itself (run_after) at about the
                         // instant at which the last of the three inactivity timers fires
                         let act = if lane < 3 {
@@ -371,10 +408,6 @@ fn build_case(mut params: SimParams, cascade: bool, gs: Vec<G>, gs2: Vec<G>, pla
                         // the write and HTTP tasks vote
                         ops.push(Op::Advance { ms: 300 - d0 });
                         ops.push(Op::Poll { k: 4 });
-                        // registrations that occupy the write task's small message queue
-                        for i in 0..(k as usize % 4) {
-                            ops.push(Op::Attach { in_cap: 8, out_cap: [1usize, 8, 64][i % 3] });
-                        }
                         // the read task votes (unanimous) and the agent changes the lane
                         ops.push(Op::Advance { ms: d0 + (d % 3) });
                     } else {
@@ -608,6 +641,10 @@ impl Runner {
             Op::Link { r, lane } if nrem > 0 => self.sim.remotes[ridx(*r)].send(lane_name(*lane), Req::Link),
             Op::Sync { r, lane } if nrem > 0 => self.sim.remotes[ridx(*r)].send(lane_name(*lane), Req::Sync),
             Op::Unlink { r, lane } if nrem > 0 => self.sim.remotes[ridx(*r)].send(lane_name(*lane), Req::Unlink),
+            Op::Cmd { lane: 8, .. } => {
+                // not an envelope: an HTTP request for a lane that does not exist
+                self.sim.http_request("nolane");
+            }
             Op::Cmd { r, lane, body } if nrem > 0 => {
                 self.sim.remotes[ridx(*r)].send(lane_name(*lane), Req::Command(body.as_bytes().to_vec()))
             }
@@ -1552,6 +1589,16 @@ fn check(case: &Case) -> Verdict {
         }
         if case.params.inactive_timeout_ms == 300 {
             st.classes.push("stop-vote-window");
+            if case.ops.iter().any(|op| matches!(op, Op::Cmd { lane: 8, .. })) {
+                st.classes.push("stop-vote-window:http-task-votes-last");
+                // the agent's own change (the `Later` handler of the window) happened and the agent then
+                // timed out: the change fell into the window around the completing vote
+                let later_ran = obs.phases[0].timed_out
+                    && obs.phases[0].trace.iter().rev().take(3).any(|(_, e)| matches!(e, PEv::Value { .. } | PEv::Update { .. }));
+                if later_ran {
+                    st.classes.push("stop-vote-window:own-change-right-before-unanimous-timeout");
+                }
+            }
         }
         bulk.evaluations += 1;
         if st.nontrivial {
